@@ -29,6 +29,8 @@
 (*   psym     "none" | "order" | "rev": create_odesys is handed user-made PARAMETER symbols in an  *)
 (*            OrderedDict listing the free parameters in sorted / reverse-sorted key order;     *)
 (*            param_names must then follow the caller's order                                   *)
+(*   pfull    the caller's parameter-symbol table is COMPLETE: it also lists keys that are          *)
+(*            overridden through parameter_expressions (they stay listed, the override wins)     *)
 (*   symodict the concentration symbols come in an OrderedDict (must be in system order)        *)
 (*   rebuild  the system object is built twice; the second result is the one judged             *)
 (*   implicit arguments equal to their documented default are left out of the call              *)
@@ -79,6 +81,7 @@ IsConfig(cf, n) ==
     /\ cf.gsub \in {"none", "num", "expr"} /\ cf.fsub \in {"none", "num"}
     /\ cf.psym \in {"none", "order", "rev"} /\ cf.symodict \in BOOLEAN
     /\ cf.rebuild \in BOOLEAN /\ cf.implicit \in BOOLEAN
+    /\ cf.pfull \in BOOLEAN /\ (cf.pfull => cf.psym # "none")
     /\ (cf.symodict => cf.symorder = subst)
     /\ SeqSet(cf.consts) \subseteq PKeys
     /\ IsQ(cf.gval) /\ IsQ(cf.gsubval) /\ IsQ(cf.gconst) /\ IsQ(cf.fsubval) /\ IsQ(cf.fconst)
@@ -148,6 +151,9 @@ ExpectedParams(cf) ==
     \cup (IF \E i \in DOMAIN rsys : AFree(cf, i) THEN {AVar} ELSE {})
     \cup { PName(i) : i \in { j \in DOMAIN rsys : PFree(cf, j) } }
     \cup { QName(i) : i \in { j \in DOMAIN rsys : QFree(cf, j) } }
+    \* a complete caller-made symbol table keeps the overridden keys listed (unused)
+    \cup (IF cf.pfull THEN { KName(i) : i \in { j \in DOMAIN rsys : cf.kinds[j] = "str" /\ cf.subs[j] # "none" } }
+          ELSE {})
 
 \* the rate expression of reaction i: one monomial
 RateTerm(cf, i) ==
@@ -207,6 +213,7 @@ BindEnv(cf) ==
     IN  [v \in names |->
             IF v \in {TVar, AVar, GVar} THEN ParamEnv(cf)[v]
             ELSE IF v \in DOMAIN KeyEnv(cf) THEN KeyEnv(cf)[v]
+            ELSE IF \E i \in DOMAIN rsys : KName(i) = v /\ cf.subs[i] # "none" THEN EffK(cf, CHOOSE i \in DOMAIN rsys : KName(i) = v)
             ELSE IF v \in DOMAIN FeedEnv(feed) THEN FeedEnv(feed)[v]
             ELSE rsys[CHOOSE i \in DOMAIN rsys : KName(i) = v].kv]
 ExpectedFAt(cf, cc) == RatesFed(EffSys(cf), cc, EffFeed(cf))
@@ -313,7 +320,7 @@ CfgOut(cf) == [builder |-> cf.builder, incl |-> cf.incl, kinds |-> cf.kinds, sub
                gsub |-> cf.gsub, fsub |-> cf.fsub, consts |-> cf.consts, symorder |-> cf.symorder,
                gval |-> cf.gval, gsubval |-> cf.gsubval, gconst |-> cf.gconst,
                fsubval |-> cf.fsubval, fconst |-> cf.fconst, qval |-> cf.qval,
-               psym |-> cf.psym, symodict |-> cf.symodict, rebuild |-> cf.rebuild, implicit |-> cf.implicit]
+               pfull |-> cf.pfull, psym |-> cf.psym, symodict |-> cf.symodict, rebuild |-> cf.rebuild, implicit |-> cf.implicit]
 OClass == cfg.builder \o (IF cfg.incl THEN "-incl" ELSE "-free")
           \o (IF cfg.cstr THEN "-cstr" ELSE "") \o (IF cfg.comp THEN "-comp" ELSE "")
           \o (IF cfg.consts # <<>> THEN "-consts" ELSE "") \o (IF feed.usermap THEN "-map" ELSE "")
@@ -329,7 +336,8 @@ OCaseIn == [ subst |-> subst,
              feed |-> FeedOut,
              cfg |-> CfgOut(cfg),
              comp |-> [j \in 1..Len(subst) |-> MapSeq(Sparse(Comp[subst[j]]))],
-             bind |-> MapSeq(BindEnv(cfg)) ]
+             bind |-> MapSeq(BindEnv(cfg)),
+             psymkeys |-> SetToSeq(ExpectedParams(cfg)) ]   \* the keys a caller-made parameter table lists
 OCaseExp == [ names |-> ExpectedNames,
               dep |-> ExpectedDep(cfg),
               params |-> SetToSeq(ExpectedParams(cfg)),
